@@ -11,6 +11,8 @@ structure Dec where
   σ : Type
   init : Src → σ
   read : σ → Res (List UInt8 × σ)
+  /-- the callback state inside the decoder state (how much input was consumed) -/
+  src : σ → Src
 
 namespace Ring
 
